@@ -122,8 +122,13 @@ def branch_chain(stmts, var_pred):
             r = _labels_of_test(cur.test, var_pred)
             if r is not None:
                 found = True
+                body, extra = cur.body, list(r[1])
+                # `elif K == 'X': if G: BODY` (nothing else in the arm): BODY runs under the extra condition G
+                while len(body) == 1 and isinstance(body[0], ast.If) and not body[0].orelse and _labels_of_test(body[0].test, var_pred) is None:
+                    extra.append(body[0].test)
+                    body = body[0].body
                 for lab in r[0]:
-                    arms.append((lab, cur.body, r[1], cur))
+                    arms.append((lab, body, extra, cur))
             else:
                 arms.append(('?', cur.body, [cur.test], cur))
             if len(cur.orelse) == 1 and isinstance(cur.orelse[0], ast.If):
@@ -329,6 +334,12 @@ def ev(e, env, funcs=None):
     if isinstance(e, ast.Call):
         if isinstance(e.func, ast.Name) and e.func.id == 'format' and len(e.args) == 2 and not e.keywords:
             return format(ev(e.args[0], env, funcs), ev(e.args[1], env, funcs))
+        if isinstance(e.func, ast.Name) and e.func.id == 'next' and len(e.args) == 2 and not e.keywords:
+            # first item of a closed sequence (a generator whose items were collected), else the default
+            seq = ev(e.args[0], env, funcs)
+            if isinstance(seq, tuple):
+                return seq[0] if seq else ev(e.args[1], env, funcs)
+            raise NotClosed('next')
         if isinstance(e.func, ast.Name) and e.func.id in ('len', 'int', 'min', 'max', 'str', 'range', 'tuple', 'list', 'sorted', 'sum', 'any', 'all', 'bool', 'abs') \
                 and not e.keywords:
             args = [ev(a, env, funcs) for a in e.args]
